@@ -198,6 +198,19 @@ def case(ctx, rng, manylegs=False):
                         if same(ctx, f"align+fuse contracted legs {order} ({strat}) then {mode}", base, r, leafref, wit, exact_tables=True) and nz and (misaligned or len(axa) > 1):
                             ctx.nontrivial(("prefuse", strat, mode, sig, tuple(order)))
                             ctx.sample({"route": "align+fuse-contracted", "strategy": strat, "mode": mode, "a": describe(a), "b": describe(b), "axes": [list(axa), list(axb)]}, limit=2)
+                # the aligned arrays are new values: fusing THEM in place must leave a and b what
+                # they were (the direct contraction afterwards still gives the base result)
+                if rng.random() < 0.3:
+                    oi1 = ctx.call(lambda: a2.fuse(tuple(axa), inplace=True))
+                    oi2 = ctx.call(lambda: b2.fuse(tuple(axb), inplace=True))
+                    ctx.count("route", "inplace-fuse-of-aligned-arrays")
+                    try:
+                        again = named.contract(ctx, na, nb, mode="blockwise", shared_order=shared)
+                    except (Raised, Surprise) as e_:
+                        ctx.violation("aligned-array-aliases-operand", f"after fusing the arrays returned by align_axes in place, contracting the ORIGINAL operands fails: {e_}", wit)
+                        return
+                    if not same(ctx, "direct contraction after in-place fuse of the aligned arrays vs before", base, again, leafref, wit, exact_tables=True):
+                        return
             else:
                 ctx.count("route", "nothing-aligned")
         # --- fuse free legs before vs after
